@@ -68,7 +68,7 @@ def search(prop, failing, kres, tier):
         return out
     for t in targets:
         try:
-            p = subprocess.run([binp, "sweep", t, "thorough" if tier == "thorough" else "quick"], capture_output=True, text=True, timeout=900)
+            p = subprocess.run([binp, "sweep", t, "thorough"], capture_output=True, text=True, timeout=900)  # the sweeps take seconds: always the full domain
         except subprocess.TimeoutExpired:
             out["sweeps"].append({"target": t, "error": "timeout"})
             continue
